@@ -629,17 +629,9 @@ func (w *world) resolveSid(v *clientView, r *sidRef) sid {
 	case "raw":
 		return sid{seq: r.Seq, lo: r.Oth, hi: r.Hi}
 	case "lock":
-		x, ok := src.locks[[2]int{r.Lo % 3, r.F % 3}]
-		if !ok {
-			x = sid{seq: 1, lo: 77}
-		}
-		s = x
+		s = pickSid(src.locks, [2]int{r.Lo % 3, r.F % 3}, sid{seq: 1, lo: 77})
 	default:
-		x, ok := src.opens[[2]int{r.Ow % 3, r.F % 3}]
-		if !ok {
-			x = sid{seq: 1, lo: 66}
-		}
-		s = x
+		s = pickSid(src.opens, [2]int{r.Ow % 3, r.F % 3}, sid{seq: 1, lo: 66})
 	}
 	s.seq = uint32(int64(s.seq) + int64(r.SeqD))
 	if r.Zero {
@@ -647,6 +639,26 @@ func (w *world) resolveSid(v *clientView, r *sidRef) sid {
 	}
 	s.hi = r.Hi
 	return s
+}
+
+// pickSid returns the state ID known for key; if there is none, some other
+// known state ID (two times out of three, so that unknown ones stay in
+// the mix), else a bogus one.
+func pickSid(m map[[2]int]sid, key [2]int, bogus sid) sid {
+	if x, ok := m[key]; ok {
+		return x
+	}
+	if len(m) == 0 || (key[0]+key[1])%3 == 2 {
+		return bogus
+	}
+	var keys [][2]int
+	for k := range m {
+		keys = append(keys, k)
+	}
+	sort.Slice(keys, func(i, j int) bool {
+		return keys[i][0] < keys[j][0] || (keys[i][0] == keys[j][0] && keys[i][1] < keys[j][1])
+	})
+	return m[keys[(key[0]*3+key[1])%len(keys)]]
 }
 
 func howTerm(h int) string {
